@@ -46,9 +46,11 @@
 package main
 
 import (
+	"bytes"
 	"fmt"
 	"go/ast"
 	"go/parser"
+	"go/printer"
 	"go/token"
 	"strings"
 )
@@ -290,5 +292,126 @@ func translateScheduleMC(p *pkg) (defs []leanDef, src string, err error) {
 	}
 	sp.imports["synthesised:"+p.fileOf[fd]] = map[string]string{"time": "time"}
 	defs, err = translateFunc(sp, transSpec{dir: p.dir, fn: name, lean: name, prop: "C06"})
+	return defs, src, err
+}
+
+// ---------------------------------------------------------------------------------------------
+// NewPREF64 (internal/plugin/plugin.go), C01: "PREF64 lifetime 3×MaxRtrAdvInterval rounded up to a
+// multiple of 8 s and capped" — the constructor computes a lifetime and stores it, with the prefix,
+// in the option it returns.  Synthesised:
+//
+//	func NewPREF64_lifetime(maxInterval time.Duration) time.Duration { <body up to the final return>; return <L> }
+//
+// where the function's last statement must be `return &PREF64{Inner: &ndp.PREF64{Prefix: <the
+// prefix parameter>, Lifetime: <L>}}` (exactly these two fields, L an expression over the locals);
+// every statement before it is kept as it is.  The translated definition is proved equal to
+// `Model.pref64Lifetime` in Props/TransC01.lean.
+func translatePREF64(p *pkg) (defs []leanDef, src string, err error) {
+	defer func() {
+		if r := recover(); r != nil {
+			if te, ok := r.(trErr); ok {
+				err = fmt.Errorf("%s", te.msg)
+				return
+			}
+			panic(r)
+		}
+	}()
+	t := &synTr{p: p, fn: "NewPREF64"}
+	fd, ok := p.funcs[t.fn]
+	if !ok {
+		return nil, "", fmt.Errorf("translate: %s: function not found in %s", t.fn, p.dir)
+	}
+	t.fd = fd
+	// parameters: (prefix netip.Prefix, maxInterval time.Duration)
+	var names, types []string
+	for _, f := range fd.Type.Params.List {
+		for _, n := range f.Names {
+			names = append(names, n.Name)
+			types = append(types, exprString(f.Type))
+		}
+	}
+	if len(names) != 2 || types[0] != "netip.Prefix" || types[1] != "time.Duration" {
+		t.fail(fd, "signature (expected (prefix netip.Prefix, maxInterval time.Duration))")
+	}
+	n := len(fd.Body.List)
+	if n == 0 {
+		t.fail(fd, "empty body")
+	}
+	ret, ok := fd.Body.List[n-1].(*ast.ReturnStmt)
+	if !ok || len(ret.Results) != 1 {
+		t.fail(fd, "body that does not end in a single-value return")
+	}
+	// &PREF64{Inner: &ndp.PREF64{Prefix: prefix, Lifetime: L}}
+	lit := func(e ast.Expr, typ string) *ast.CompositeLit {
+		u, ok := e.(*ast.UnaryExpr)
+		if !ok || u.Op != token.AND {
+			t.fail(e, "returned value (expected &"+typ+"{…})")
+		}
+		cl, ok := u.X.(*ast.CompositeLit)
+		if !ok || exprString(cl.Type) != typ {
+			t.fail(e, "returned value (expected &"+typ+"{…})")
+		}
+		return cl
+	}
+	outer := lit(ret.Results[0], "PREF64")
+	if len(outer.Elts) != 1 {
+		t.fail(outer, "fields of the returned PREF64 (expected Inner only)")
+	}
+	kv, ok := outer.Elts[0].(*ast.KeyValueExpr)
+	if !ok || exprString(kv.Key) != "Inner" {
+		t.fail(outer, "fields of the returned PREF64 (expected Inner only)")
+	}
+	inner := lit(kv.Value, "ndp.PREF64")
+	var lifetime ast.Expr
+	for _, e := range inner.Elts {
+		kv, ok := e.(*ast.KeyValueExpr)
+		if !ok {
+			t.fail(e, "positional field in ndp.PREF64{…}")
+		}
+		switch exprString(kv.Key) {
+		case "Prefix":
+			if exprString(kv.Value) != names[0] {
+				t.fail(kv, "Prefix of the option (expected the prefix parameter unchanged)")
+			}
+		case "Lifetime":
+			lifetime = kv.Value
+		default:
+			t.fail(kv, "field "+exprString(kv.Key)+" of ndp.PREF64")
+		}
+	}
+	if lifetime == nil || len(inner.Elts) != 2 {
+		t.fail(inner, "fields of ndp.PREF64 (expected Prefix and Lifetime)")
+	}
+	// the statements before the return must not mention the prefix
+	var body strings.Builder
+	for _, s := range fd.Body.List[:n-1] {
+		if mentions(s, names[0]) {
+			t.fail(s, "use of the prefix parameter before the return")
+		}
+		var buf bytes.Buffer
+		if err := printer.Fprint(&buf, fset, s); err != nil {
+			t.fail(s, "statement that cannot be printed")
+		}
+		body.WriteString("\t" + buf.String() + "\n")
+	}
+	const name = "NewPREF64_lifetime"
+	src = "package synth\n\nimport \"time\"\n\n// synthesised from NewPREF64 by tools/extract/translate_synth.go\n" +
+		"func " + name + "(" + names[1] + " time.Duration) time.Duration {\n" + body.String() + "\treturn " + exprString(lifetime) + "\n}\n"
+	f, perr := parser.ParseFile(fset, "synthesised:"+p.fileOf[fd], src, 0)
+	if perr != nil {
+		return nil, src, fmt.Errorf("translate: %s: the synthesised function does not parse: %v", t.fn, perr)
+	}
+	// the package's constants (maxPref64Lifetime) stay visible to the translator
+	sp := &pkg{dir: p.dir, consts: p.consts, dup: p.dup, structs: map[string]*ast.StructType{},
+		funcs: map[string]*ast.FuncDecl{}, fileOf: map[*ast.FuncDecl]string{}, repo: p.repo,
+		imports: map[string]map[string]string{}, nstruct: map[string]int{}}
+	for _, d := range f.Decls {
+		if sfd, ok := d.(*ast.FuncDecl); ok {
+			sp.funcs[sfd.Name.Name] = sfd
+			sp.fileOf[sfd] = "synthesised:" + p.fileOf[fd]
+		}
+	}
+	sp.imports["synthesised:"+p.fileOf[fd]] = map[string]string{"time": "time"}
+	defs, err = translateFunc(sp, transSpec{dir: p.dir, fn: name, lean: name, prop: "C01"})
 	return defs, src, err
 }
